@@ -54,11 +54,12 @@ SafeBare(x, ctx) == /\ x # <<>> /\ VClass(x[1]) = "token" /\ \A i \in 2..Len(x) 
 
 \* ---------------------------------------------------------------- the writer (string.go senMap, AppendSENString)
 WClass(b) ==
-  CASE b \in {36, 42, 43, 45, 46, 63, 64, 94, 95, 96, 124, 126} \cup (65..90) \cup (97..122) -> "o"
+  CASE b \in {36, 42, 43, 45, 46, 63, 64, 94, 95, 126} \cup (65..90) \cup (97..122) -> "o"
     [] b \in 48..57 -> "0"
     [] b \in {38, 60, 62} -> "h"
     [] b \in {8, 12, 13, 34, 92} -> "esc"
-    [] b \in {9, 10, 32, 33, 35, 37, 39, 40, 41, 44, 47, 58, 59, 61, 91, 93, 123, 125} -> "x"
+    \* (96 backquote and 124 bar are 'x' since fix b18ccbf: the reader has no cell for them)
+    [] b \in {9, 10, 32, 33, 35, 37, 39, 40, 41, 44, 47, 58, 59, 61, 91, 93, 96, 123, 124, 125} -> "x"
     [] b >= 128 -> "8"
     [] OTHER -> "ctl"
 MaxTokenLen == 64
@@ -66,7 +67,8 @@ HasTriple(s, a, b, cs) == \E i \in 1..(Len(s) - 2) : s[i] = a /\ s[i + 1] = b /\
 NeedsQuote(s, htmlSafe) ==
   \/ s = <<>> \/ Len(s) > MaxTokenLen
   \/ (LET m == WClass(s[1]) IN m \notin {"o", "8"} /\ ~(~htmlSafe /\ m = "h"))
-  \/ \E i \in 1..Len(s) : WClass(s[i]) \in {"x", "ctl", "esc"} \/ (WClass(s[i]) = "h" /\ htmlSafe)
+  \* an '&' that is not escaped (HTMLUnsafe) forces quotes since fix b18ccbf: '<' and '>' are token bytes for the reader, '&' is not
+  \/ \E i \in 1..Len(s) : WClass(s[i]) \in {"x", "ctl", "esc"} \/ (WClass(s[i]) = "h" /\ htmlSafe) \/ s[i] = 38
   \/ ~ValidUtf8(s)                                   \* an invalid byte is written as \ufffd
   \/ HasTriple(s, 226, 128, {168, 169})              \* U+2028 / U+2029 are escaped
   \/ HasTriple(s, 239, 191, {189})                   \* U+FFFD is escaped
